@@ -226,6 +226,12 @@ def _r1_loop(ctx, f, loop):
             for n in walk_no_nested(s):
                 if isinstance(n, ast.Call) and isinstance(n.func, ast.Attribute) and n.func.attr in ('append', 'extend') and n.args and src(n.args[0]) == acc:
                     fl = (s, n)
+                # a list of ready-made jobs that is concatenated into the job list: `job_gen = [..] + acc` / `job_gen += acc`
+                if isinstance(n, ast.Assign) and isinstance(n.value, ast.BinOp) and isinstance(n.value.op, ast.Add) and any(isinstance(x, ast.Name) and x.id == acc for x in (n.value.left, n.value.right)) \
+                        and "'*'" in src(n.value):
+                    fl = (s, n)
+                if isinstance(n, ast.AugAssign) and isinstance(n.op, ast.Add) and src(n.value) == acc:
+                    fl = (s, n)
         if fl is None:
             ctx.emit('C05-R1', False, BTM, loop, f'small-contig accumulator `{acc}` is never flushed into the job list after the loop', key=f'flush-after-loop:{acc}')
             continue
@@ -401,7 +407,15 @@ def r3(ctx):
             if cfg.nodes[p[-1][0]].info not in ('fall', 'continue'):
                 continue
             names = [src(c.func) for nid, _l in p for c in node_calls(cfg.nodes[nid])]
-            skipped = any(cfg.nodes[nid].kind == 'test' and 'no_source_reads' in src(cfg.nodes[nid].ast.test) and lab == 'false' for nid, lab in p)
+            def _nsr_true(nid, lab):
+                # the path runs under `no_source_reads` being true: the false arm of `not no_source_reads`, the true arm of `no_source_reads`
+                nn = cfg.nodes[nid]
+                if nn.kind != 'test' or 'no_source_reads' not in src(nn.ast.test):
+                    return False
+                t_ = nn.ast.test
+                neg = isinstance(t_, ast.UnaryOp) and isinstance(t_.op, ast.Not)
+                return lab == ('false' if neg else 'true')
+            skipped = any(_nsr_true(nid, lab) for nid, lab in p)
             if 'molecule.write_tags' not in names or ('molecule.write_pysam' not in names and not skipped):
                 okw = False
     ctx.emit('C05-R3', okw, BTM, loops[0] if loops else f, 'every molecule of the chained iterator is tagged and written (unless no_source_reads)', key='write-every-molecule')
